@@ -519,7 +519,7 @@ func main() {
 	}
 	nh := 40000
 	if *tier == "thorough" {
-		nh = 400000
+		nh = 4000000
 	}
 	per := nh / *nshard
 	rng := rand.New(rand.NewSource(*seed*1000003 + int64(*shard)*7919 + 17))
